@@ -266,7 +266,10 @@ def rule_match(fx, rep):
         for bb, j, s in b.stmts():
             if s["k"] == "assign" and s["lhs"]["l"] == 0 and not s["lhs"].get("p"):
                 val = deep_strip(b.expr(s["rv"].get("op"), expand_named=True, at=bb)) if s["rv"]["k"] == "use" else None
-                from_list = val is not None and bool(find_calls(val, "slice::get", "ArrayVec::get", "Index>::index"))
+                # an element of the list itself: indexed, or drawn from an iteration over `self`
+                from_list = val is not None and (bool(find_calls(val, "slice::get", "ArrayVec::get", "Index>::index")) or
+                                                 any(any(isinstance(x, tuple) and len(x) >= 2 and x[0] == "arg" and x[1] == 1 for x in walk(c))
+                                                     for c in find_calls(val, "Iterator>::next")))
                 need = {"Move::src": 2, "Move::dst": 3, "Move::promotion": 4}
                 have = set()
                 for (e, pol, w) in guard_conditions(b, bb, expand_named=True):
